@@ -75,7 +75,7 @@ type codecCase struct {
 	Which     string        `json:"which,omitempty"`      // alias: encoder under test
 }
 
-var lenClasses = []int{0, 0, 1, 1, 2, 3, 7, 16, 100, 255, 256, 257, 1000, 4096, 65535}
+var lenClasses = []int{0, 0, 1, 1, 2, 3, 7, 16, 100, 255, 256, 257, 1000, 4096, 65535, 65536, 65537, 70000}
 
 func genBlob(t *rapid.T, label string, max int) blob {
 	n := rapid.SampledFrom(lenClasses).Draw(t, label+"len")
@@ -97,10 +97,12 @@ func genCEntry(t *rapid.T, shared []blob, maxVal int) cEntry {
 	if len(shared) > 0 && rapid.IntRange(0, 3).Draw(t, "useShared") != 0 {
 		e.Prefix = rapid.SampledFrom(shared).Draw(t, "prefix")
 	} else {
-		e.Prefix = genBlob(t, "prefix", 65500)
+		e.Prefix = genBlob(t, "prefix", 70000)
 	}
 	e.Suffix = vlib.Str(rapid.OneOf(
 		rapid.SampledFrom([]string{"", "a", "b", "@1", "@18446744073709551615", "\x00", "\xff"}),
+		// multi-byte UTF-8 neighbours (same lead byte, other continuation byte; code point == a byte value)
+		rapid.SampledFrom([]string{"ключ-а", "ключ-д", "PÁO", "PÃO", "é", "è", "\u00c3", "\u00c2", "\xc3", "\xc3\x81", "\xc3\x83", "\xc2\x82", "日本", "日曜"}),
 		rapid.Map(rapid.SliceOfN(rapid.Byte(), 0, 8), func(b []byte) string { return string(b) }),
 	).Draw(t, "suffix"))
 	e.Val = genBlob(t, "val", maxVal)
@@ -114,7 +116,7 @@ func genEntries(t *rapid.T, label string, maxN int) []cEntry {
 	nshared := rapid.IntRange(0, 3).Draw(t, label+"nshared")
 	var shared []blob
 	for i := 0; i < nshared; i++ {
-		shared = append(shared, genBlob(t, "shared", 65500))
+		shared = append(shared, genBlob(t, "shared", 70000))
 	}
 	class := rapid.IntRange(0, 99).Draw(t, label+"nclass")
 	var n int
@@ -131,7 +133,7 @@ func genEntries(t *rapid.T, label string, maxN int) []cEntry {
 	if n > maxN {
 		n = maxN
 	}
-	maxVal := 65535
+	maxVal := 70000
 	if n > 60 {
 		maxVal = 300
 	}
@@ -165,7 +167,7 @@ func genCodecCase(t *rapid.T) codecCase {
 		if len(c.Entries) == 0 {
 			c.Entries = []cEntry{genCEntry(t, nil, 300)}
 		}
-		c.BlockSize = rapid.SampledFrom([]int{1, 1, 2, 10, 50, 200, 4096}).Draw(t, "block")
+		c.BlockSize = rapid.SampledFrom([]int{1, 1, 2, 10, 50, 200, 4096, 1 << 20}).Draw(t, "block")
 		c.Level = rapid.IntRange(0, 6).Draw(t, "level")
 	case "wal":
 		c.Entries = genEntries(t, "e", 60)
@@ -578,7 +580,7 @@ var bigLens = []int{65536, 65537, 70000, 131072, 200000}
 
 func genSizeCase(t *rapid.T) sizeCase {
 	c := sizeCase{Kind: rapid.SampledFrom([]string{"data", "table", "wal", "index"}).Draw(t, "kind"),
-		Block: rapid.SampledFrom([]int{1, 4096, 100000}).Draw(t, "block")}
+		Block: rapid.SampledFrom([]int{1, 4096, 100000, 1 << 20}).Draw(t, "block")}
 	n := rapid.IntRange(1, 5).Draw(t, "n")
 	bigAt := rapid.IntRange(0, n-1).Draw(t, "bigAt")
 	for i := 0; i < n; i++ {
@@ -603,6 +605,13 @@ func genSizeCase(t *rapid.T) sizeCase {
 			}
 		}
 		c.Entries = append(c.Entries, e)
+		if i == bigAt && rapid.Bool().Draw(t, "sharedBigPrefix") {
+			// a neighbour that shares the whole long prefix (prefix compression across >= 64 KiB)
+			n := e
+			n.Suffix = vlib.Str(string(e.Suffix) + "~next")
+			n.Val = blob{Pat: "w", N: 3}
+			c.Entries = append(c.Entries, n)
+		}
 	}
 	return c
 }
